@@ -83,7 +83,7 @@ def _states_str(st: dict, ngrains: int):
 def build_hosted(rng, *, capacity: int, grain: int, ngte: int = 512, states=None, placement: str = "shuffle",
                  tag: int = 1, kind: int = 0, version: int = 1, zero_gte: bool = True, redundant: bool = False,
                  descriptor: str | None = None, align_grains: bool = True, tables_after_data: bool = False,
-                 empty_tables: bool = True, far_sector: int = 0):
+                 empty_tables: bool = True, far_sector: int = 0, desc_exact: bool = False):
     """Plain (non-compressed) hosted sparse extent. states per grain: A / U / Z."""
     ngrains = -(-capacity // grain)
     if states is None:
@@ -97,7 +97,7 @@ def build_hosted(rng, *, capacity: int, grain: int, ngte: int = 512, states=None
     gd_sectors = -(-(ngd * 4) // SECTOR)
     desc_bytes = descriptor.encode() if descriptor is not None else b""
     desc_size = -(-len(desc_bytes) // SECTOR) if desc_bytes else 0
-    if desc_bytes:
+    if desc_bytes and not desc_exact:
         desc_size += rng.randrange(0, 3)
     desc_off = 1 if desc_bytes else 0
     cur = 1 + desc_size
@@ -368,8 +368,8 @@ SE_MAGIC = 0xCAFEBABE
 
 
 def build_sesparse(rng, *, capacity: int, grain: int = 8, gt_sectors: int = 64, states=None, placement: str = "shuffle",
-                   tag: int = 1, kind: int = 0, big_index: bool = False, empty_tables: bool = True):
-    """SE-sparse extent. states per grain: A / U (unallocated) / F (fall-through, scsi-unmapped) / Z (zero)."""
+                   tag: int = 1, kind: int = 0, big_index: bool = False, empty_tables: bool = True, huge_index: bool = False):
+    """SE-sparse extent. huge_index (needs big_index): some grain indices beyond 2^32 (only for in-memory sparse backings). states per grain: A / U (unallocated) / F (fall-through, scsi-unmapped) / Z (zero)."""
     ngte = gt_sectors * SECTOR // 8
     ngrains = -(-capacity // grain)
     if states is None:
@@ -404,7 +404,7 @@ def build_sesparse(rng, *, capacity: int, grain: int = 8, gt_sectors: int = 64, 
             nxt += rng.randrange(1, 4)
         if big_index and rng.random() < 0.1:
             # exercise the high bits of the split index, up to grains tens of TiB into the file (index >= 2^32)
-            jump = rng.choice([rng.randrange(1, 1 << 22), rng.randrange(1, 1 << 22), max(1, (1 << 32) - nxt % (1 << 32) - rng.randrange(0, 3)), (1 << 33) + rng.randrange(1 << 20)])
+            jump = rng.randrange(1, 1 << 22) if not huge_index else rng.choice([rng.randrange(1, 1 << 22), rng.randrange(1, 1 << 22), max(1, (1 << 32) - nxt % (1 << 32) - rng.randrange(0, 3)), (1 << 33) + rng.randrange(1 << 20)])
             if nxt + jump < (1 << 35):
                 nxt += jump
         idx[g] = nxt
